@@ -632,6 +632,13 @@ def compare_fit_results(ctx, case, fa, fb, tag, key, minimizer):
             return ca == cb or (np.isnan(ca) and np.isnan(cb))
         return ctx.check("fit.cost", abs(ca - cb) <= 10 * ctol, lambda: dict(det, got=cb, expected=ca, tolerance=10 * ctol, cond_cor=cond), key=lambda: key("fit.cost"))
     dev = np.abs(pa - pb)
+    _ca, _cb = float(fa.cost_function_value), float(fb.cost_function_value)
+    if np.isfinite(_ca) and np.isfinite(_cb) and abs(_ca - _cb) <= ctol and np.any(dev > np.where(sig > 0, sig, np.inf)):
+        # sigma is DEFINED by a cost increase of 1: two end points more than one reported sigma apart with the same cost show that the
+        # minimum has a flat direction and the reported sigma is no yardstick (same rule as C09; thorough tier: a Gaussian peak fitted
+        # into a parabola, A = 1643 / 1470 with sigma_A = 1.7 and costs equal to 1e-4)
+        ctx.discard("do_fit-degenerate-minimum-values-not-compared")
+        return True
     ok = ctx.check("fit.parameter_values", bool(np.all(dev <= ptol * sig + 1e-9 * (1.0 + np.abs(pa)))), lambda: dict(det, got=pb, expected=pa, sigma=sig, deviation_in_sigma=dev / np.where(sig > 0, sig, 1.0), tolerance_sigma=ptol), key=lambda: key("fit.parameter_values"))
     ca, cb = float(fa.cost_function_value), float(fb.cost_function_value)
     ok = ctx.check("fit.cost", abs(ca - cb) <= ctol, lambda: dict(det, got=cb, expected=ca, tolerance=ctol), key=lambda: key("fit.cost")) and ok
@@ -644,6 +651,11 @@ def compare_fit_results(ctx, case, fa, fb, tag, key, minimizer):
             free = [i for i in range(len(ea)) if ea[i] > 0 and np.isfinite(ea[i])]
             cond = float(np.linalg.cond(cor[np.ix_(free, free)])) if len(free) > 1 else 1.0
             etol = max(2e-2, 2e-8 * cond) if np.isfinite(cond) else 1.0
+            if minimizer in (None, "iminuit") and (getattr(fa, "has_x_errors", False) or getattr(fa, "has_model_errors", False)):
+                # covariance depends on the parameters: the cost is not parabolic, and Minuit2's HESSE with strategy 1 (kafe2's setting)
+                # iterates its steps only until the second derivatives change by < 5 % (same yardstick as C15; thorough tier: the SAME
+                # object fitted twice reported uncertainties 3.0 % apart at an unchanged optimum, cond(cor) = 1350)
+                etol = max(etol, 5e-2)
         except Exception:
             cond = None
         ctx.note("errors-compared-at-2e-2" if etol <= 2e-2 else "errors-compared-looser-ill-conditioned")
